@@ -404,8 +404,9 @@ func (cl *vpClusterT) vpAttachRouting(rot int) {
 	pos := map[string]uint64{}
 	for i, m := range cl.members {
 		slot := uint64((i+rot)%n) * 10
-		pos[m.member.Name+"0"] = slot + 5 // virtual node
-		pos[m.member.Name] = slot + 6     // member key (orders the replica owners)
+		pos[m.member.Name+"0"] = slot + 5 // two virtual nodes
+		pos[m.member.Name+"1"] = slot + 7
+		pos[m.member.Name] = slot + 6 // member key (orders the replica owners)
 	}
 	for p := uint64(0); p < cl.parts; p++ {
 		pos[string([]byte{byte(p), 0, 0, 0, 0, 0, 0, 0})] = (p%uint64(n))*10 + 1
